@@ -235,8 +235,10 @@ Definition save (wav_dur : list (list N * N)) (r : list rsection) : result (list
   Ok (secs ++ extra1 ++ extra2 ++ extra3).
 
 (* bytes -> bytes: the whole unedited cycle *)
-Definition load_save (bs : bytes) : result bytes :=
-  do d <- chk_decode bs; do r <- load d; do d' <- save [] r; chk_encode d'.
+Definition load_save_w (wav_dur : list (list N * N)) (bs : bytes) : result bytes :=
+  do d <- chk_decode bs; do r <- load d; do d' <- save wav_dur r; chk_encode d'.
+
+Definition load_save (bs : bytes) : result bytes := load_save_w [] bs.
 
 (* ---- editors ---------------------------------------------------------------------------------------------------------- *)
 
@@ -335,9 +337,13 @@ Definition apply_op (p : pool) (r : list rsection) (o : aop) : result (list rsec
   | OpSaveReload => encode_decode_cycle r
   end.
 
-Definition run_scenario (bs : bytes) (p : pool) (ops : list aop) : result bytes :=
+(* the final save may be given WAV metadata (RichChkIo.encode_chk's optional wav_metadata_lookup, which
+   StarCraftMpqIo.save_chk_to_mpq always passes): path -> duration *)
+Definition run_scenario_w (wav_dur : list (list N * N)) (bs : bytes) (p : pool) (ops : list aop) : result bytes :=
   do d <- chk_decode bs;
   do r0 <- load d;
   do r <- fold_left (fun acc o => do r <- acc; apply_op p r o) ops (Ok r0);
-  do d' <- save [] r;
+  do d' <- save wav_dur r;
   chk_encode d'.
+
+Definition run_scenario (bs : bytes) (p : pool) (ops : list aop) : result bytes := run_scenario_w [] bs p ops.
